@@ -22,6 +22,7 @@ import (
 	"github.com/bitcoin-sv/block-headers-service/transports/p2p/addrmgr"
 	"github.com/bitcoin-sv/block-headers-service/transports/p2p/connmgr"
 	"github.com/bitcoin-sv/block-headers-service/transports/p2p/p2psync"
+	"github.com/bitcoin-sv/block-headers-service/transports/p2p/p2putil"
 	"github.com/bitcoin-sv/block-headers-service/transports/p2p/peer"
 	"github.com/rs/zerolog"
 )
@@ -39,6 +40,18 @@ type VerifC18WiredCfg struct {
 	Retry         time.Duration
 	GetNewAddress func() (net.Addr, error)
 	Dial          func(net.Addr) (net.Conn, error)
+	// RealAddressSource: GetNewAddress is the production closure
+	// p2putil.NewAddressFunc(s.addrManager.GetAddress, s.OutboundGroupCount, lookup), as in newServer,
+	// over the server's real address manager filled with Book.
+	RealAddressSource bool
+	Book              []VerifC18BookEntry
+}
+
+// VerifC18BookEntry is one known peer address.
+type VerifC18BookEntry struct {
+	IP     net.IP
+	Port   int
+	Recent bool // connection attempted just now (addrManager.Attempt)
 }
 
 // VerifC18NewWired builds the server value the way newServer does (minus listeners and DNS seeds).
@@ -81,12 +94,25 @@ func VerifC18NewWired(c VerifC18WiredCfg) (*VerifC18Wired, error) {
 		return nil, err
 	}
 	s.syncManager = sm
+	getAddr := c.GetNewAddress
+	if c.RealAddressSource {
+		lookup := func(string) ([]net.IP, error) { return nil, errors.New("no dns") }
+		getAddr = p2putil.NewAddressFunc(s.addrManager.GetAddress, s.OutboundGroupCount, lookup)
+		src := wire.NewNetAddressIPPort(net.IPv4(45, 200, 1, 1), 8333, wire.SFspv)
+		for _, b := range c.Book {
+			na := wire.NewNetAddressIPPort(b.IP, uint16(b.Port), wire.SFspv)
+			s.addrManager.AddAddresses([]*wire.NetAddress{na}, src)
+			if b.Recent {
+				s.addrManager.Attempt(na)
+			}
+		}
+	}
 	cm, err := connmgr.New(&connmgr.Config{
 		TargetOutbound: uint32(c.Target),
 		RetryDuration:  c.Retry,
 		Dial:           c.Dial,
 		OnConnection:   s.outboundPeerConnected,
-		GetNewAddress:  c.GetNewAddress,
+		GetNewAddress:  getAddr,
 		BanAddress:     s.addrManager.BanAddress,
 		Logger:         &lg,
 	})
